@@ -224,7 +224,8 @@ impl<'a, 'b, 'c> AdtDeserializer<'a, 'b, 'c> {
 
     fn record_field_index(&mut self, chunk: u8) -> FieldPosition {
         let last_index = &mut self.last_index_per_chunk[chunk as usize];
-        let new_index = *last_index + 1;
+        // positions are bytes: the 129th field of a chunk has position 128
+        let new_index = last_index.wrapping_add(1);
         let fp = FieldPosition::new(chunk, new_index as u8);
         *last_index = new_index;
         fp
